@@ -70,4 +70,17 @@ func (w *Watcher) Watches(dir string) bool {
 	return false
 }
 
+// Unwatch drops the watch on a directory, as the kernel does when a watched directory is deleted or moved away.
+func (w *Watcher) Unwatch(dir string) bool {
+	w.mu.Lock()
+	defer w.mu.Unlock()
+	for i, d := range w.dirs {
+		if d == dir {
+			w.dirs = append(w.dirs[:i], w.dirs[i+1:]...)
+			return true
+		}
+	}
+	return false
+}
+
 func (w *Watcher) Close() error { return nil }
